@@ -29,8 +29,35 @@ def liveEnd (idx : List (Nat × Nat)) : Nat :=
 
 def setEntry (idx : List (Nat × Nat)) (i : Nat) (e : Nat × Nat) : List (Nat × Nat) := idx.set i e
 
-/-- `partial_encode` for a list of updated inner chunks -/
+/-- `partial_encode` for a list of updated inner chunks (as repaired: with the index at the end, an update that
+removes the last inner chunks and appends nothing rewrites the shard up to the end of the remaining data, so that
+the index always directly follows the live data) -/
 def partialEncode (c : Cfg) (v : Option Bytes) (updates : List (Nat × Option Bytes)) : Option (Option Bytes) :=
+  match currentIndex c v with
+  | none => none
+  | some idx =>
+    let maxData0 := liveEnd idx
+    -- invalidate the entries of every touched inner chunk
+    let idx1 := updates.foldl (fun ix u => setEntry ix u.1 (sentinel, sentinel)) idx
+    let (v1, maxData) := if idx1.all (fun e => !isLive e) then (none, 0) else (v, maxData0)
+    let offsetNew := if c.indexAtEnd then maxData else max maxData (indexSize c)
+    -- append the re-encoded inner chunks
+    let (idx2, data, _) := updates.foldl (fun (acc : List (Nat × Nat) × Bytes × Nat) u =>
+      match u.2 with
+      | some b => (setEntry acc.1 u.1 (acc.2.2, b.length), acc.2.1 ++ b, acc.2.2 + b.length)
+      | none => (setEntry acc.1 u.1 (sentinel, sentinel), acc.2.1, acc.2.2)) (idx1, [], offsetNew)
+    if idx2.all (fun e => !isLive e) then some none     -- erase the shard
+    else
+      let ib := encodeIndex c idx2
+      if c.indexAtEnd then
+        if data.isEmpty && liveEnd idx2 < offsetNew then
+          some (writeAt none 0 ((v1.getD []).take (liveEnd idx2) ++ ib))
+        else some (writeAt v1 offsetNew (data ++ ib))
+      else some (writeAt (writeAt v1 0 ib) offsetNew data)
+
+
+/-- `partial_encode` as found on the pinned tree (before the repair of the stale index tail, finding F-C05-K1) -/
+def partialEncodePinned (c : Cfg) (v : Option Bytes) (updates : List (Nat × Option Bytes)) : Option (Option Bytes) :=
   match currentIndex c v with
   | none => none
   | some idx =>
@@ -49,6 +76,7 @@ def partialEncode (c : Cfg) (v : Option Bytes) (updates : List (Nat × Option By
       let ib := encodeIndex c idx2
       if c.indexAtEnd then some (writeAt v1 offsetNew (data ++ ib))
       else some (writeAt (writeAt v1 0 ib) offsetNew data)
+
 
 /-- the intended effect on the list of inner chunks -/
 def applyUpdates (chunks : List (Option Bytes)) (updates : List (Nat × Option Bytes)) : List (Option Bytes) :=
